@@ -15,13 +15,15 @@ Max(a, b) == IF a > b THEN a ELSE b
 Lg(n) == CHOOSE k \in 0..16 : (2^k >= n) /\ (k = 0 \/ 2^(k-1) < n)
 Budget(p, lvl, sg) == LgT + Max(sg + 3, IF p = "pks" THEN LogN + 6 ELSE 8) + Lg(NParties) + 4 < LgQ[lvl + 1]
 Configs == {x \in [proto : Protos, inlvl : 0..MaxL, outlvl : 0..MaxL, lgsigma : Sigmas, sc : {"default", "other"},
-                   f : {"none", "id", "neg", "times3", "perm", "coef"}] :
+                   f : {"none", "id", "neg", "times3", "perm", "coef", "permdec", "permenc"}] :
               /\ Budget(x.proto, x.inlvl, x.lgsigma)
               /\ (x.proto \in {"s2e", "refresh", "transform"} => Budget(x.proto, x.outlvl, x.lgsigma))
               /\ (x.proto \in {"ks0", "ks", "pks", "e2s"} => x.outlvl = x.inlvl)
               /\ (x.proto = "s2e" => x.inlvl = x.outlvl)
               /\ ((x.proto = "transform") = (x.f # "none"))
-              /\ (x.proto = "pks" => x.lgsigma <= 20)}
+              /\ (x.proto = "pks" => x.lgsigma <= 20)
+              \* the scale of an output whose encoding differs from the input's is not documented: default scale only
+              /\ (x.f \in {"permdec", "permenc"} => x.sc = "default")}
 Init == c \in Configs
 Next == UNCHANGED c
 GSpec == Init /\ [][Next]_c
